@@ -3,3 +3,4 @@
 import Dblib.Props.C14.Abstract
 import Dblib.Props.C14.EndToEnd
 import Dblib.Props.C14.Concrete
+import Dblib.Props.C14.Send
